@@ -477,6 +477,12 @@ def answer (line : String) : String :=
           | .ok d => showDate d
           | .error e => showParseErr e
       | none => "BADREQ"
+  | ["prim_parse", ty, h] =>
+      -- the model of `str::parse::<i32>()` / `::<u32>()` the generated date parser is built on
+      match hexDec h, ty with
+      | some s, "i32" => showOptInt (Str.parseI32 s.toList)
+      | some s, "u32" => showOptInt (Str.parseU32 s.toList)
+      | _, _ => "BADREQ"
   | ["month_str", h] =>
       match hexDec h with
       | some s => showOptInt ((Month.fromStr s.toList).map Month.number)
